@@ -31,7 +31,8 @@ Definition remove_key {A} (k : text) (l : list (text * A)) : list (text * A) :=
 
 (* ---- constants taken from the source by tools/gen/gen_gateway.py ---- *)
 Record consts := { k_prefix : text; k_methods : list text; k_preflight : text;
-                   k_key : text; k_meta : text; k_oneway : text; k_sep : N }.
+                   k_key : text; k_meta : text; k_oneway : text; k_sep : N;
+                   k_index_limit : nat }.     (* how many listed names the index page details *)
 
 (* ---- str.encode("utf-8") (surrogates are outside the model) ---- *)
 Definition utf8_cp (c : N) : list N :=
@@ -209,7 +210,7 @@ Section Gateway.
 
   (* return_homepage *)
   Definition index_names (cfg : config) (be : backend) : list text :=
-    sort_texts (firstn 10 (filter (exposedb cfg) (map fst (be_registry be)))).
+    sort_texts (firstn (k_index_limit K) (filter (exposedb cfg) (map fst (be_registry be)))).
   Definition uri_of (be : backend) (name : text) : text :=
     match assoc name (be_registry be) with Some u => u | None => [] end.
   Definition homepage (cfg : config) (be : backend) : outcome * list action :=
